@@ -394,9 +394,13 @@ def analyse(ctx, progs, rows, stats):
             continue
         if kind in ("invalid", "noinst", "nofunc"):
             m = re.search(r"type mismatch: expected (\w+), but was (\w+)", r.get("err") or "")
+            # a local declared from a bare literal (`x := 2`) and later given a value of another type is a
+            # separate root cause (its type variable is resolved differently for the symbol and for literals
+            # compared with it): tag it so that it does not share a signature with the repaired hint leaks
+            tag = "; untyped literal local" if re.search(r"^\s*[xyz] := \d+\s*$", p["src"], re.M) else ""
             found.append(("C19 accepted program does not %s%s" % (
                 {"invalid": "validate", "noinst": "instantiate", "nofunc": "export f"}[kind],
-                " [expected %s, was %s]" % (m.group(1), m.group(2)) if m else ""),
+                " [expected %s, was %s%s]" % (m.group(1), m.group(2), tag) if m else ""),
                           "the analyzer accepted the source but the WASM module does not %s (%s):\n%s" % (
                               {"invalid": "validate", "noinst": "instantiate", "nofunc": "export f"}[kind],
                               r.get("err"), p["src"]), p, r, p.get("nodes", 0)))
